@@ -3,31 +3,83 @@ package env
 import (
 	metav1 "k8s.io/apimachinery/pkg/apis/meta/v1"
 	"k8s.io/apimachinery/pkg/apis/meta/v1/unstructured"
+	"k8s.io/client-go/discovery"
 	"k8s.io/client-go/rest"
 
 	dynamicclientset "metacontroller/pkg/dynamic/clientset"
 	dynamicdiscovery "metacontroller/pkg/dynamic/discovery"
 )
 
+// fixtureDoc is what the simulated API server answers to discovery. The first
+// group-version holds a resource with the same plural name as ex.com/v1
+// "nostatuses" that DOES have a status subresource (same-named resources in
+// several groups are common: events, ingresses, ...).
+func fixtureDoc() []*metav1.APIResourceList {
+	return []*metav1.APIResourceList{
+		{GroupVersion: "aaa.ex.com/v1", APIResources: []metav1.APIResource{
+			{Name: "nostatuses", Namespaced: true, Kind: "NoStatus"},
+			{Name: "nostatuses/status", Namespaced: true, Kind: "NoStatus"},
+		}},
+		{GroupVersion: "ex.com/v1", APIResources: []metav1.APIResource{
+			{Name: "things", Namespaced: true, Kind: "Thing"},
+			{Name: "things/status", Namespaced: true, Kind: "Thing"},
+			{Name: "clusterthings", Namespaced: false, Kind: "ClusterThing"},
+			{Name: "clusterthings/status", Namespaced: false, Kind: "ClusterThing"},
+			{Name: "nostatuses", Namespaced: true, Kind: "NoStatus"},
+		}},
+		{GroupVersion: "v1", APIResources: []metav1.APIResource{
+			{Name: "configmaps", Namespaced: true, Kind: "ConfigMap"},
+			{Name: "pods", Namespaced: true, Kind: "Pod"},
+			{Name: "pods/status", Namespaced: true, Kind: "Pod"},
+			{Name: "namespaces", Namespaced: false, Kind: "Namespace"},
+		}},
+		{GroupVersion: "apps.ex.com/v1", APIResources: []metav1.APIResource{
+			{Name: "widgets", Namespaced: true, Kind: "Widget"},
+			{Name: "widgets/status", Namespaced: true, Kind: "Widget"},
+		}},
+	}
+}
+
+// HasStatusSubresource is the ground truth of the fixture document (NOT read
+// back from the ResourceMap under test).
+func HasStatusSubresource(resource string) bool {
+	switch resource {
+	case "things", "clusterthings", "pods", "widgets":
+		return true
+	}
+	return false
+}
+
+type fakeDiscovery struct {
+	discovery.DiscoveryInterface
+}
+
+func (fakeDiscovery) ServerGroupsAndResources() ([]*metav1.APIGroup, []*metav1.APIResourceList, error) {
+	return nil, fixtureDoc(), nil
+}
+
+var fixtureRM = NewResourceMap()
+
 // Fixture resources known to the simulated discovery.
 var (
 	// parents
-	ThingRes        = dynamicdiscovery.VerifNewAPIResource("ex.com/v1", metav1.APIResource{Name: "things", Namespaced: true, Group: "ex.com", Version: "v1", Kind: "Thing"}, "status")
-	ClusterThingRes = dynamicdiscovery.VerifNewAPIResource("ex.com/v1", metav1.APIResource{Name: "clusterthings", Namespaced: false, Group: "ex.com", Version: "v1", Kind: "ClusterThing"}, "status")
-	NoStatusRes     = dynamicdiscovery.VerifNewAPIResource("ex.com/v1", metav1.APIResource{Name: "nostatuses", Namespaced: true, Group: "ex.com", Version: "v1", Kind: "NoStatus"})
+	ThingRes        = fixtureRM.Get("ex.com/v1", "things")
+	ClusterThingRes = fixtureRM.Get("ex.com/v1", "clusterthings")
+	NoStatusRes     = fixtureRM.Get("ex.com/v1", "nostatuses")
 	// children
-	ConfigMapRes = dynamicdiscovery.VerifNewAPIResource("v1", metav1.APIResource{Name: "configmaps", Namespaced: true, Group: "", Version: "v1", Kind: "ConfigMap"})
-	PodRes       = dynamicdiscovery.VerifNewAPIResource("v1", metav1.APIResource{Name: "pods", Namespaced: true, Group: "", Version: "v1", Kind: "Pod"}, "status")
-	NamespaceRes = dynamicdiscovery.VerifNewAPIResource("v1", metav1.APIResource{Name: "namespaces", Namespaced: false, Group: "", Version: "v1", Kind: "Namespace"})
-	WidgetRes    = dynamicdiscovery.VerifNewAPIResource("apps.ex.com/v1", metav1.APIResource{Name: "widgets", Namespaced: true, Group: "apps.ex.com", Version: "v1", Kind: "Widget"}, "status")
+	ConfigMapRes = fixtureRM.Get("v1", "configmaps")
+	PodRes       = fixtureRM.Get("v1", "pods")
+	NamespaceRes = fixtureRM.Get("v1", "namespaces")
+	WidgetRes    = fixtureRM.Get("apps.ex.com/v1", "widgets")
 )
 
 func AllResources() []*dynamicdiscovery.APIResource {
 	return []*dynamicdiscovery.APIResource{ThingRes, ClusterThingRes, NoStatusRes, ConfigMapRes, PodRes, NamespaceRes, WidgetRes}
 }
 
+// NewResourceMap runs the real discovery refresh over the fixture document.
 func NewResourceMap() *dynamicdiscovery.ResourceMap {
-	return dynamicdiscovery.VerifNewResourceMap(AllResources()...)
+	return dynamicdiscovery.VerifNewResourceMap(fakeDiscovery{})
 }
 
 // World bundles a server, discovery and the real dynamic Clientset over them.
@@ -40,7 +92,7 @@ type World struct {
 func NewWorld() *World {
 	srv := NewServer()
 	for _, r := range AllResources() {
-		if r.HasSubresource("status") {
+		if HasStatusSubresource(r.Name) {
 			srv.StatusSub[r.Name] = true
 		}
 	}
